@@ -795,3 +795,84 @@ def logix_check(ctx, prop, cases, extra_oracle=None, rule='', nontrivial=None):
                         'requests are driven in-process through the Message Router object (dotdict requests), not over TCP',
                         'struct.pack/unpack = little-endian two\'s complement / IEEE as modelled by Model.Logix.pack (differentially tested here)']
     return dis, nbad
+
+
+# ---------------------------------------------------------------------------------------------------------------------------
+# String tags (STRING 0xD0 / SSTRING 0xDA): outside Model/Logix.v; judged on the implementation alone against a list-of-strings model
+def string_tags_check(rng, nops):
+    """-> None | (history description, what).  Requests travel as wire bytes like every other request of this harness."""
+    import cpppo
+    from cpppo import dotdict
+    from cpppo.server.enip import device, logix, parser
+    logging.getLogger().setLevel(logging.ERROR + 10)
+    device.lookup_reset(); logix.setup_reset()
+    spec = {'S': (0xD0, parser.STRING, ['', 'ab', 'caf\xe9']), 'T': (0xDA, parser.SSTRING, ['x', ''])}
+    tg = dotdict(); atts = {}
+    for name, (code, cls, init) in spec.items():
+        atts[name] = device.Attribute(name, cls, default=list(init))
+        dict.__setitem__(tg, name, dotdict(attribute=atts[name], error=0))
+    logix.setup(tags=tg)
+    mr = device.lookup(2, 1)
+    model = {k: list(v[2]) for k, v in spec.items()}
+    hist = []
+
+    def send(d):
+        wire = bytes(logix.Logix.produce(d))
+        q = dotdict(); src = cpppo.chainable(wire)
+        with mr.parser as m:
+            for _ in m.run(source=src, data=q):
+                pass
+        mr.request(q)
+        return bytes(q.input)
+
+    def decode(code, b):
+        out, i = [], 0
+        while i < len(b):
+            if code == 0xD0:
+                n = b[i] | (b[i + 1] << 8); out.append(b[i + 2:i + 2 + n].decode('latin-1')); i += 2 + n + (n % 2)
+            else:
+                n = b[i]; out.append(b[i + 1:i + 1 + n].decode('latin-1')); i += 1 + n
+        return out
+
+    for step in range(nops):
+        name = rng.choice(['S', 'T']); code, cls, _ = spec[name]; n = len(model[name])
+        i = rng.randrange(0, n)
+        if rng.random() < 0.5:
+            k = rng.randrange(1, n - i + 1)
+            wcode = code if rng.random() < 0.7 else (0xDA if code == 0xD0 else 0xD0)
+            vals = [''.join(chr(rng.choice([rng.randrange(32, 127), rng.randrange(0xA0, 0x100)])) for _ in range(rng.choice([0, 1, 2, 3, 5, 8] + ([255, 256, 300] if rng.random() < 0.15 else []))))
+                    for _ in range(k)]
+            if wcode == 0xDA:
+                vals = [v[:255] for v in vals]            # an SSTRING cannot spell more on the wire
+            d = dotdict(service=0x4D, path={'segment': [{'symbolic': name}, {'element': i}]}, write_tag=dotdict(type=wcode, elements=k, data=list(vals)))
+            hist.append(('write', name, i, '0x%02X' % wcode, [v if len(v) < 20 else '%d chars' % len(v) for v in vals]))
+            try:
+                b = send(d)
+            except Exception as e:
+                return hist, 'a Write Tag to a string tag raised %s instead of being answered' % type(e).__name__
+            ok = wcode == code and all(len(v) < 256 for v in vals) if code == 0xDA else wcode == code
+            if ok:
+                if b[2] != 0:
+                    return hist, 'a well-formed write of the tag\'s own string type was refused with status 0x%02x' % b[2]
+                model[name][i:i + k] = vals
+            else:
+                if b[2] == 0:
+                    return hist, 'a write of a string type the tag cannot hold was acknowledged'
+        else:
+            k = rng.randrange(1, n - i + 1)
+            d = dotdict(service=0x4C, path={'segment': [{'symbolic': name}, {'element': i}]}, read_tag=dotdict(elements=k))
+            hist.append(('read', name, i, k))
+            try:
+                b = send(d)
+            except Exception as e:
+                return hist, 'a Read Tag of a string tag raised %s: the tag has become unreadable' % type(e).__name__
+            if b[2] != 0:
+                return hist, 'a Read Tag of %d string elements inside the tag was refused with status 0x%02x' % (k, b[2])
+            ty = b[4] | (b[5] << 8)
+            try:
+                got = decode(code, b[6:])
+            except Exception:
+                got = None
+            if ty != code or got != model[name][i:i + k]:
+                return hist, 'Read Tag returns type 0x%02X %r, the most recently written values are 0x%02X %r' % (ty, got, code, model[name][i:i + k])
+    return None
